@@ -1552,6 +1552,14 @@ class Interp:
             if isinstance(s, ast.Assign) and len(s.targets) == 1 and isinstance(s.targets[0], ast.Name):
                 env.set(s.targets[0].id, self.ev(s.value, env))
                 return chain(stmts[1:])
+            if isinstance(s, ast.Assign) and len(s.targets) == 1 and isinstance(s.targets[0], (ast.Tuple, ast.List)) \
+                    and all(isinstance(e, ast.Name) for e in s.targets[0].elts):
+                v = self.ev(s.value, env)               # `a, b = pair` with a tuple-valued right-hand side
+                if isinstance(v, VTuple) and len(v.items) == len(s.targets[0].elts):
+                    for e, x in zip(s.targets[0].elts, v.items):
+                        env.set(e.id, x)
+                    return chain(stmts[1:])
+                raise Unsupported("tuple unpacking of a non-tuple in spec helper")
             if isinstance(s, ast.If):
                 c = self.truth(self.ev(s.test, env))
                 a = chain(list(s.body) + ([] if self._ends_return(s.body) else stmts[1:]))
